@@ -46,6 +46,7 @@ package server
 // The password callback grants (returns a nil error) only to the three service
 // users, each under its own condition; everything else is rejected.
 //@ func (*Server).Callback
+//@   no-blocking-ops
 //@   requires [conn] !isnil(c)
 //@   assigns nothing
 //@   ensures [only-service-users] implies(isnil(result1), ufs_ssh_ConnMetadata_User(id(c)) == config.HealthUser || ufs_ssh_ConnMetadata_User(id(c)) == config.ScheduleUser || ufs_ssh_ConnMetadata_User(id(c)) == config.ContinuousUser)
